@@ -21,6 +21,10 @@ Per case
     extracted Coq model (Model/Transfer.v, abor_run) and the model's replies / liveness / ledger are compared
     with what the real server did.
 
+F2, F3, F4 are repaired in aioftp: their former witnesses (ABOR before the data connection, ABOR right behind the
+command of a short transfer, ABOR during a slow back-end open) are ordinary cases of the corpus and must satisfy the
+oracle; nothing of C14 is listed in known_findings.json any more.
+
 Smoke test:
     >>> r = xfer.run_case(abor_case("RETR", ("gate", "read", 2), size=10))
     >>> [rec["codes"] for rec in r.log if rec["step"][:2] == ["cmd", "ABOR"]]
@@ -41,14 +45,17 @@ TECHNIQUE = (
     "extracted model, the model state being read off the real server's own state at the entry of abor()"
 )
 LEVEL_TEXT = (
-    "Proved (Closed under the global context), for every reachable state of the model with at most one transfer: "
-    "C14_abor_any_moment_partial (ABOR is answered 426,226 or 226, every worker ends with data stream and file closed, "
-    "what it had moved is unchanged, the session state is that of an idle session) for all stages not excluded by "
-    "abor_safe; C14_abor_in_body (any byte position inside the body: exactly 426,226), C14_abor_idle (single 226), "
-    "C14_moved_is_prefix.  Refuted on today's code, each with a witness replayed on the real server every run: "
-    "C14_abor_waiting_refuted / C14_abor_spawned_refuted (F2), C14_abor_unreaped_refuted (F3), "
-    "C14_abor_entering_file_refuted (F4), hence C14_abor_any_moment_refuted.  PARTIAL: the theorems are about the "
-    "model; that the real asyncio schedule is one of the model's is validated by the enumerated placements, not proved."
+    "Proved (Closed under the global context): C14_abor_any_moment - for EVERY reachable state of the model of a live "
+    "session with at most one transfer, in every stage (not started, waiting for the data connection, back-end open, "
+    "seek, any block, any exit, finished and not yet reaped), ABOR is answered 426,226 or 226, every worker ends with "
+    "data stream and file closed, what it had moved is unchanged, and the session state is exactly that of an idle "
+    "session; no stage is carved out for a defect.  The hypothesis at_rest states the asyncio rule R1 (the abor handler "
+    "meets the worker only suspended, not started or finished) and excludes a transfer that has already failed on its "
+    "own and whose 451 / session end is still to be reported by the dispatcher.  Further: C14_abor_in_body (exactly "
+    "426,226 anywhere in the body), C14_abor_idle (single 226), C14_moved_is_prefix.  The theorem rests on the closed "
+    "obligation C14_facts_ok (repaired14 genF), false on each former defective shape (F2, F3, F4).  PARTIAL: the "
+    "theorems are about the model; that the real asyncio schedule is one of the model's is validated by the enumerated "
+    "placements, not proved."
 )
 LEVEL_NOTE = (
     "Trusted: Coq kernel; extraction cross-checked with vm_compute; py2v; simnet.  Modelled, not verified: the "
@@ -152,6 +159,7 @@ def oracle(case, r):
             break
     if i_abor is None:
         return [("harness", "no ABOR in the script")]
+    done_code = DONE.get(verb)
     started = any(150 in rec["codes"] for rec in log[: i_abor + 1])
     n_follow = len(FOLLOWUPS[case["follow"]])
     end_window = len(log) - n_follow - 1  # up to the snap before the follow-up
@@ -161,8 +169,9 @@ def oracle(case, r):
         # the transfer command is part of the same step: its own 150 belongs to it
         if 150 in window:
             window.remove(150)
-    done_code = DONE.get(verb)
-    completed_before = started and place[0] == "done"
+    # the transfer was over before the ABOR was sent: completed, refused (425) or failed on its own (451)
+    after150 = before[before.index(150) + 1 :] if 150 in before else []
+    completed_before = started and (place[0] == "done" or any(c in (done_code, 425, 451) for c in after150))
     if place[0] == "handler_gate":
         # nothing to abort yet: a single 226; the command then runs to completion once the back-end answers
         want = [[226, 150, done_code]]
@@ -200,16 +209,16 @@ def oracle(case, r):
                 bad.append(("prefix", f"{verb} delivered bytes that are not a prefix of the listing"))
     # stored bytes
     if verb in ("STOR", "APPE"):
-        name = "up" if verb == "STOR" else "old"
-        got = r.store.get(name)
-        old = xfer.pattern(case["files"]["old"], sorted(case["files"]).index("old")) if verb == "APPE" else b""
         off = case.get("rest") or 0
+        name = "up" if (verb == "STOR" and not off) else "old"
+        got = r.store.get(name)
+        old = xfer.pattern(case["files"]["old"], sorted(case["files"]).index("old")) if (verb == "APPE" or off) else b""
         if got is not None:
             sent = r.payload[: r.data[0].sent] if r.data else b""
             if verb == "APPE" and not off:
                 ok = got[: len(old)] == old and sent[: len(got) - len(old)] == got[len(old) :]
             elif off:
-                base = old if verb == "APPE" else b""
+                base = old
                 ok = got == base or _overlay_ok(base, off, sent, got)
             else:
                 ok = sent[: len(got)] == got
@@ -412,10 +421,13 @@ def run_cases(ctx, cases, facts, stream):
             ctx.disagree(stream + ":abor-replies", {"case": case, "stages": want_stages}, [m_rep, bool(m_alive)], [real_rep, alive_real])
         elif post_real != post_model:
             ctx.disagree(stream + ":ledger-after-abor", {"case": case, "stages": want_stages}, post_model, post_real)
-        # (c) the model's abor_safe is exactly where the real server meets the oracle
+        # (c) every state abor() is observed in satisfies the hypothesis of C14_abor_any_moment (at_rest, no abandoned
+        #     stream), and there the real server meets the oracle
         core_bad = [a for a in aspects if a in ("answered", "session", "data-eof", "leftover")]
-        if bool(m_safe) and core_bad:
-            ctx.disagree(stream + ":abor_safe-but-oracle-fails", {"case": case, "stages": want_stages}, "abor_safe", aspects)
+        if not bool(m_safe):
+            ctx.disagree(stream + ":state-outside-the-theorem", {"case": case, "stages": want_stages}, "at_rest = false", "abor() ran in this state")
+        elif core_bad:
+            ctx.disagree(stream + ":theorem-applies-but-oracle-fails", {"case": case, "stages": want_stages}, "abor_ok", aspects)
         ctx.count("model-stage:" + ("idle" if not want_stages else "-".join(str(x) for x in want_stages[0][:1])))
         if len(xs) < 30 and want_stages:
             xs.append((3, marg, mo))
@@ -518,9 +530,10 @@ def client_stream(ctx):
 
 def obligations(ctx):
     o = ctx.model([(1, [])])[0]
-    names = ["sound12", "sound14", "workers_ok", "fin_ok", "cancel_codes_ok"]
-    for n, v in zip(names, o[:5]):
-        if not v and n != "sound12" and n != "fin_ok":
+    flags = {"sound14": o[1], "workers_ok": o[2], "cancel_codes_ok": o[4], "cancelled_task_answered_426_226": o[6],
+             "repaired14": o[8], "stream_first_ok": o[9], "abor_ignores_finished_workers": o[10]}
+    for n, v in flags.items():
+        if not v:
             ctx.obligation_broken("C14_facts_ok:" + n, "the structural fact the C14 theorems rest on no longer holds in server.py")
     ctx.extra["gen_facts"] = {"abor_condition": ["truthiness of extra_workers", "some worker not done", "unknown"][o[5]],
                               "cancelled_task_handled_by_dispatcher": bool(o[6])}
@@ -563,20 +576,9 @@ def search(ctx):
         ctx.notes.append(f"search aborted: {e!r}")
 
 
-KNOWN = {
-    "F2-abor-while-waiting-for-data-connection": (KEY_F2, lambda: abor_case("RETR", ("nodata",))),
-    "F3-abor-unanswered-finished-worker": (KEY_F3, lambda: abor_case("RETR", ("ticks", 0))),
-    "F4-file-open-leaves-data-stream-open-seen-from-C14": (KEY_F4, lambda: abor_case("STOR", ("gate", "open", 1))),
-}
-
-
-def known(ctx):
-    for fid, (key, mk) in KNOWN.items():
-        case = mk()
-        r = xfer.run_case(case)
-        bad = oracle(case, r)
-        if bad and key_for(case, r, [a for a, _ in bad]) == key:
-            ctx.known_reproduced(fid, "; ".join(m for _, m in bad))
+# F2, F3 and F4 are repaired: no known() replays; their former witnesses - abor_case(v, ("nodata",)),
+# abor_case(v, ("ticks", 0..4)) / ("pipe",), abor_case(v, ("gate", "open", 1)) - are ordinary corpus cases of
+# gen_cases and must satisfy the oracle (keys KEY_F2 / KEY_F3 / KEY_F4 are no longer listed: a return is a VIOLATION)
 
 
 def replay(ctx, data):
